@@ -23,16 +23,17 @@ def main():
     replay = json.load(open(a.replay)) if a.replay else None
     ctx = core.Ctx(a.pid, a.tier, seed, replay)
     pre_fail = []
-    GEN = {'C01': ('gen_model', 'Model'), 'C02': ('gen_model', 'Model'), 'C03': ('gen_interp', 'Interp'), 'C06': ('gen_infer', 'Infer'), 'C07': ('gen_infer', 'Infer'), 'C08': ('gen_infer', 'Infer'), 'C10': ('gen_model', 'Model')}
-    if a.pid in GEN:
+    GEN = {'C01': ['gen_model'], 'C02': ['gen_model'], 'C03': ['gen_interp', 'gen_interp_multi'], 'C04': ['gen_prob'], 'C06': ['gen_infer'],
+           'C07': ['gen_infer'], 'C08': ['gen_infer'], 'C10': ['gen_model']}
+    for g in GEN.get(a.pid, []):
         # the generated part of the model is re-derived from the current source before anything is built
         try:
-            gen = importlib.import_module('harness.' + GEN[a.pid][0])
+            gen = importlib.import_module('harness.' + g)
             changed, _ = gen.regenerate()
-            if changed: print(f'{a.pid}: lean/PyhfGen/{GEN[a.pid][1]}.lean regenerated from the current sources (content changed)')
+            if changed: print(f'{a.pid}: {os.path.relpath(gen.OUT, core.VERIF)} regenerated from the current sources (content changed)')
         except Exception as e:  # noqa — the code left the subset the translator handles
             import traceback
-            pre_fail.append({'kind': 'translator', 'what': f'symbolic execution of the current sources failed: {type(e).__name__}: {str(e)[:200]}',
+            pre_fail.append({'kind': 'translator', 'generator': g, 'what': f'symbolic execution of the current sources failed: {type(e).__name__}: {str(e)[:200]}',
                              'log_tail': traceback.format_exc()[-800:]})
     gate = core.proof_gate(a.pid, thorough=(a.tier == 'thorough'))
     gate['failures'] = pre_fail + gate['failures']
